@@ -58,7 +58,7 @@ def intervals_strategy(draw, n, kmax=6):
 def static_cases(draw, tier, kind):
     many = draw(st.integers(0, 14)) == 14  # occasionally a long series with very many events
     n = draw(st.integers(150, 320)) if many else draw(st.integers(1 if kind != "change" else 2, 30))
-    case = {"kind": kind, "n": n, "index": draw(D.index_spec(D.INDEX_KINDS + D.REPEAT_INDEX_KINDS))}
+    case = {"kind": kind, "n": n, "index": draw(D.index_spec(D.INDEX_KINDS + D.REPEAT_INDEX_KINDS + D.TZ_INDEX_KINDS))}
     if kind == "change":
         if many:
             k = draw(st.integers(70, 140))
@@ -196,7 +196,7 @@ def detector_cases(draw, tier, det):
     nmax = 30 if det != "CircularBinarySegmentation" else 20
     n = draw(st.integers(n_min, max(n_min, nmax)))
     bw = params.get("bandwidth", params.get("min_segment_length", 1))
-    case = {"detector": det, "params": params, "index": draw(D.index_spec(D.INDEX_KINDS + D.REPEAT_INDEX_KINDS)),
+    case = {"detector": det, "params": params, "index": draw(D.index_spec(D.INDEX_KINDS + D.REPEAT_INDEX_KINDS + D.TZ_INDEX_KINDS)),
             "columns": draw(st.sampled_from(C05_COLUMN_KINDS)),
             # predict(X), then update with a long continuation (penalties / thresholds change), then transform(X)
             "update_between": draw(st.sampled_from([False, False, True]))}
@@ -292,6 +292,35 @@ def check_pooled(case):
     return info
 
 
+def many_event_cells(tier):
+    """Exactly 255 / 256 / 257 / 4096 / 4097 / 32767 / 32768 / 65536 events (label counters in narrow integer types, batches of
+    events): every second position a changepoint / every second sample a point anomaly, on a range or time-zone aware index."""
+    for kind in ("change", "anomaly", "subset"):
+        counts = [255, 256, 257, 4096, 4097] + ([32767, 32768, 40000] if kind == "change" or tier != "quick" else []) + \
+            ([65535, 65536, 65537] if tier != "quick" else [])
+        for i, k in enumerate(counts):
+            yield {"kind": kind, "k": k, "index": {"kind": ("range0", "datetime_tz_dst", "range_offset")[i % 3], "start": 5, "step": 1, "name": None}}
+
+
+def check_many_events(case):
+    kind, k = case["kind"], case["k"]
+    sub = {"kind": kind, "index": case["index"]}
+    if kind == "change":
+        sub["n"] = 2 * k + 1
+        sub["changepoints"] = list(range(1, 2 * k, 2))
+    else:
+        sub["n"] = 2 * k
+        sub["intervals"] = [[2 * i, 2 * i + 1] for i in range(k)]
+    if kind == "subset":
+        sub["p"] = 3
+        sub["columns"] = "default"
+        sub["icolumns"] = [([0], [2, 0], [1], [1, 2])[i % 4] for i in range(k)]
+    info = check_static(sub)
+    info["classes"] = list(info.get("classes", [])) + [f"events={k}", f"kind={kind}"]
+    info["nontrivial"] = True
+    return info
+
+
 def static_facet(kind, nq, nt):
     return Facet(name=f"static_{kind}", check=check_static, strategy=lambda tier, k=kind: static_cases(tier, k),
                  rule=(f"hand-built valid sparse outputs ({kind}): strictly increasing changepoints / disjoint intervals incl. adjacent, "
@@ -303,7 +332,7 @@ def static_facet(kind, nq, nt):
 def det_facet(det, nq, nt):
     return Facet(name=f"via_{det}", check=check_detector, strategy=lambda tier, d=det: detector_cases(tier, d),
                  rule=(f"{det} fitted and applied to a DataFrame with a generated index type and column labels; transform == positional "
-                       "labelling of predict and dense_to_sparse(transform) == predict; index of 9 kinds (incl. repeated time stamps), optionally named, compared "
+                       "labelling of predict and dense_to_sparse(transform) == predict; index of 10 kinds (incl. repeated time stamps and a time-zone aware one), optionally named, compared "
                        "by values and name with a snapshot taken before the call; 8 kinds of column labels; the caller's own index / columns must be "
                        "unchanged; non-trivial = non-default index and >= 1 event"),
                  n_quick=nq, n_thorough=nt, shards_quick=2, shards_thorough=8)
@@ -312,6 +341,11 @@ def det_facet(det, nq, nt):
 FACETS = [static_facet("change", 600, 10000), static_facet("anomaly", 600, 10000), static_facet("subset", 600, 10000)] + [
     det_facet(d, 120 if d != "CircularBinarySegmentation" else 80, 2000) for d in K.DETECTORS
 ] + [
+    Facet(name="many_events", kind="enumerate", enumerate=many_event_cells, check=check_many_events, exhaustive=True, time_limit=600,
+          rule=("hand-built sparse outputs of the three kinds with exactly 255 / 256 / 257 / 4096 / 4097 events, changepoints also 32767 / 32768 / 40000 (thorough: "
+                "all kinds up to 65535 / 65536 / 65537) - every second position a changepoint, every second sample a point anomaly, subsets of 3 columns - "
+                "on a range, offset-range or time-zone aware hourly index: same positional labelling and round trip; every cell non-trivial"),
+          shards_quick=12, shards_thorough=16, max_samples=1),
     Facet(name="pooled_weak_shift", kind="enumerate", enumerate=pooled_cells, check=check_pooled, exhaustive=True, time_limit=300,
           rule=("default MVCAPA on 12 / 30 / 40 channels (thorough: 64) sharing a weak shift of 0.5-0.8 (noise sd 0.3; detected by pooling although no single "
                 "channel exceeds its penalty) next to a strong two-channel anomaly and a point anomaly; transform == positional labelling of predict "
